@@ -34,7 +34,8 @@ def tol_arc(om):
 ASSUMPTIONS = [
     'unit quaternions, weights in [0,1], default threshold 0.9995 (the statement is about these)',
     'tolerance 1e-12 (absolute, components and S^3 angles) wherever the library is in its SLERP branch; worst observed '
-    'on the unchanged tree 4.4e-16 (thorough)',
+    'on the unchanged tree over the thorough alphabet: 4.4e-16 (components, speed), 6.8e-16 (arc sum); the smallest '
+    'mutation effect seen (threshold 0.9995 -> 0.95) is 5e-7',
     'for end points closer than arccos(0.9995)=0.031624 rad on S^3 the library documents a normalised LERP: the point '
     'is exactly on the arc but its angle deviates from t*Omega by Omega^3*t(1-t)(1-2t)/6 <= 0.01604*Omega^3 '
     '(measured 0.0160*Omega^3); allowed there: 1e-12 + 0.02*Omega^3 (5.1e-7 rad at the threshold, design allowed '
@@ -49,6 +50,8 @@ ASSUMPTIONS = [
     'base sequences are smooth (consecutive rotation angle < 120 deg, i.e. chord < 1 — the regime in which a sign '
     'flip is distinguishable from motion by the chord>1 rule); leading/trailing NaN rows are outside the statement',
     'remove_jumps / q_correct are not applied to histories that still contain NaN (not covered by the statement)',
+    'the empty set of NaN rows is one of the 2^(N-2) subsets: slerp_nan on a NaN-free history must return/leave the '
+    'valid rows (up to the sign normalisation above) and must not raise',
     'reference model mc/ref/slerp.py: p*exp(t*log(p^-1 q)) with atan2 angles, independent of the sin-weight formula',
 ]
 REQUIRED_CLASSES = ['slerp:equal', 'slerp:antipodal', 'slerp:orthogonal-tie', 'slerp:obtuse(flip)', 'slerp:acute',
